@@ -581,18 +581,19 @@ Qed.
 
 (* ========================================================= 4. path algebra *)
 
-Lemma calc_to_path_no_prefix : forall p rs,
-  (forall f t, In (f, t) rs -> starts_with p f = false) -> calc_to_path p rs = p.
+(* the string-prefix rule used before fix 7b0370f *)
+Lemma calc_to_path_str_no_prefix : forall p rs,
+  (forall f t, In (f, t) rs -> starts_with p f = false) -> calc_to_path_str p rs = p.
 Proof.
   intros p rs. induction rs as [|[f t] r IH]; intros H; [reflexivity|].
-  cbn [calc_to_path]. rewrite (H f t (or_introl eq_refl)).
+  cbn [calc_to_path_str]. rewrite (H f t (or_introl eq_refl)).
   apply IH. intros f' t' Hin. apply (H f' t'). right. exact Hin.
 Qed.
 
-Lemma calc_to_path_single : forall p f t,
-  calc_to_path p [(f, t)] <> p <-> (starts_with p f = true /\ f <> t).
+Lemma calc_to_path_str_single : forall p f t,
+  calc_to_path_str p [(f, t)] <> p <-> (starts_with p f = true /\ f <> t).
 Proof.
-  intros p f t. cbn [calc_to_path]. destruct (starts_with p f) eqn:S.
+  intros p f t. cbn [calc_to_path_str]. destruct (starts_with p f) eqn:S.
   - apply starts_with_prefix in S. destruct S as [r Hr]. subst p.
     rewrite skipn_len_app. split.
     + intros H. split; [reflexivity|]. intros E. apply H. rewrite E. reflexivity.
@@ -600,22 +601,6 @@ Proof.
   - split.
     + intros H. exfalso. apply H. reflexivity.
     + intros [H _]. discriminate.
-Qed.
-
-Lemma changed_files_match : forall changes renames,
-  map (fun e => fst (fst e)) (get_changed_files changes renames) = map fst changes /\
-  (forall p to m, In (Some p, to, m) (get_changed_files changes renames) ->
-      to = Some (calc_to_path p renames) /\ In (Some p, m) changes) /\
-  (forall p m, In (Some p, m) changes ->
-      (forall f t, In (f, t) renames -> starts_with p f = false) ->
-      In (Some p, Some p, m) (get_changed_files changes renames)).
-Proof.
-  intros changes renames. unfold get_changed_files. split; [|split].
-  - rewrite map_map. apply map_ext. intros a. reflexivity.
-  - intros p to m H. apply in_map_iff in H. destruct H as [[op mm] [E Hin]].
-    cbn [fst snd] in E. inversion E; subst. split; [reflexivity|assumption].
-  - intros p m Hin Hn. apply in_map_iff. exists (Some p, m). split; [|assumption].
-    cbn [fst snd]. rewrite calc_to_path_no_prefix by assumption. reflexivity.
 Qed.
 
 (* ========================================================== 5. file system *)
@@ -799,11 +784,11 @@ Proof.
   rewrite new_content_notin by assumption. reflexivity.
 Qed.
 
-Lemma to_path_agrees_single : forall p f t,
+Lemma old_rule_agrees_single : forall p f t,
   (starts_with (render p) (render f) = true -> is_prefix f p = true) ->
-  calc_to_path (render p) [(render f, render t)] = render (final_path [(f, t)] p).
+  calc_to_path_str (render p) [(render f, render t)] = render (final_path [(f, t)] p).
 Proof.
-  intros p f t H. cbn [calc_to_path]. unfold final_path. cbn [fold_left fst snd].
+  intros p f t H. cbn [calc_to_path_str]. unfold final_path. cbn [fold_left fst snd].
   unfold move_path.
   destruct (starts_with (render p) (render f)) eqn:S.
   - rewrite (H eq_refl). pose proof (is_prefix_split f p (H eq_refl)) as Hp.
@@ -817,9 +802,90 @@ Proof.
     congruence.
 Qed.
 
-Lemma to_path_refuted : exists p f t,
-  calc_to_path (render p) [(render f, render t)] <> render (final_path [(f, t)] p).
+Lemma old_rule_refuted : exists p f t,
+  calc_to_path_str (render p) [(render f, render t)] <> render (final_path [(f, t)] p).
 Proof.
   exists [[112;107;103;50]; [97]]%N, [[112;107;103]]%N, [[110;101;119]]%N.
   intro H. vm_compute in H. discriminate.
+Qed.
+
+(* ============================= 6. the current rule (component-wise) and apply *)
+
+Lemma calc_to_path_final : forall rs p, calc_to_path p rs = final_path rs p.
+Proof.
+  induction rs as [|[f t] r IH]; intros p; [reflexivity|].
+  cbn [calc_to_path]. unfold final_path. cbn [fold_left fst snd]. unfold move_path.
+  destruct (is_prefix f p); apply IH.
+Qed.
+
+Lemma calc_to_path_no_prefix : forall p rs,
+  (forall f t, In (f, t) rs -> is_prefix f p = false) -> calc_to_path p rs = p.
+Proof.
+  intros p rs. induction rs as [|[f t] r IH]; intros H; [reflexivity|].
+  cbn [calc_to_path]. rewrite (H f t (or_introl eq_refl)).
+  apply IH. intros f' t' Hin. apply (H f' t'). right. exact Hin.
+Qed.
+
+Lemma calc_to_path_single : forall p f t,
+  calc_to_path p [(f, t)] <> p <-> (is_prefix f p = true /\ f <> t).
+Proof.
+  intros p f t. cbn [calc_to_path]. destruct (is_prefix f p) eqn:S.
+  - pose proof (is_prefix_split _ _ S) as Hp. split.
+    + intros H. split; [reflexivity|]. intros E. apply H. subst t. symmetry. exact Hp.
+    + intros [_ H] E. rewrite Hp in E at 2. apply app_inv_tail in E. apply H. symmetry. exact E.
+  - split.
+    + intros H. exfalso. apply H. reflexivity.
+    + intros [H _]. discriminate.
+Qed.
+
+Lemma changed_files_match : forall changes renames,
+  map (fun e => fst (fst e)) (get_changed_files changes renames) = map fst changes /\
+  (forall p to m, In (Some p, to, m) (get_changed_files changes renames) ->
+      to = Some (final_path renames p) /\ In (Some p, m) changes) /\
+  (forall p m, In (Some p, m) changes ->
+      (forall f t, In (f, t) renames -> is_prefix f p = false) ->
+      In (Some p, Some p, m) (get_changed_files changes renames)).
+Proof.
+  intros changes renames. unfold get_changed_files. split; [|split].
+  - rewrite map_map. apply map_ext. intros a. reflexivity.
+  - intros p to m H. apply in_map_iff in H. destruct H as [[op mm] [E Hin]].
+    cbn [fst snd] in E. inversion E; subst. rewrite calc_to_path_final.
+    split; [reflexivity|assumption].
+  - intros p m Hin Hn. apply in_map_iff. exists (Some p, m). split; [|assumption].
+    cbn [fst snd]. rewrite calc_to_path_no_prefix by assumption. reflexivity.
+Qed.
+
+Lemma strip_paths_none : forall changed c, In (None, c) changed -> strip_paths changed = None.
+Proof.
+  induction changed as [|[[p|] d] r IH]; intros c H; [destruct H| |reflexivity].
+  destruct H as [H|H]; [discriminate|]. cbn [strip_paths]. rewrite (IH c H). reflexivity.
+Qed.
+
+Lemma strip_paths_some : forall changed,
+  (forall c, ~ In (None, c) changed) ->
+  exists ch, strip_paths changed = Some ch /\ map (fun e => (Some (fst e), snd e)) ch = changed.
+Proof.
+  induction changed as [|[[p|] d] r IH]; intros H.
+  - exists []. split; reflexivity.
+  - destruct IH as [ch [E1 E2]].
+    + intros c Hc. apply (H c). right. exact Hc.
+    + exists ((p, d) :: ch). cbn [strip_paths]. rewrite E1. split; [reflexivity|].
+      cbn [map fst snd]. rewrite E2. reflexivity.
+  - exfalso. apply (H d). left. reflexivity.
+Qed.
+
+(* a path-less buffer among the changed files: refused, nothing is written *)
+Lemma apply_pathless_refused : forall changed renames s c,
+  In (None, c) changed -> apply_refactoring changed renames s = None.
+Proof.
+  intros changed renames s c H. unfold apply_refactoring. rewrite (strip_paths_none _ _ H). reflexivity.
+Qed.
+
+Lemma apply_refactoring_effect : forall changed renames s,
+  (forall c, ~ In (None, c) changed) ->
+  exists ch, map (fun e => (Some (fst e), snd e)) ch = changed /\
+             apply_refactoring changed renames s = Some (apply_fs ch renames s).
+Proof.
+  intros changed renames s H. destruct (strip_paths_some changed H) as [ch [E1 E2]].
+  exists ch. split; [exact E2|]. unfold apply_refactoring. rewrite E1. reflexivity.
 Qed.
